@@ -16,14 +16,14 @@ Definition MAXI : Z := 2 ^ 62.                (* math.MaxInt in runtimeInfo.play
 
 Record cell := mkCell { ce_step : Z; ce_key : Z; ce_t : Z; ce_l : Z }.
 Record awaiter := mkAw { a_req : Z; a_ls : Z; a_le : Z; a_off : Z }.
-Record chunk := mkChunk { c_id : Z; c_start : Z; c_data : option (list cell); c_aw : list awaiter;
+Record chunk := mkChunk { c_id : Z; c_start : Z; c_data : option (list (option cell)); c_aw : list awaiter;
   c_inv : Z; c_lsa : Z; c_lat : Z; c_size : Z; c_loading : Z }.
 Record bucket := mkBucket { b_step : Z; b_key : Z; b_chunks : list chunk; b_lat : Z; b_play : Z }.
 Record req := mkReq { r_id : Z; r_step : Z; r_key : Z; r_t0 : Z; r_data : list (option cell);
   r_ls : Z; r_le : Z; r_wait : Z; r_err : bool; r_mode : Z; r_load : Z; r_chunks : list (Z * Z) }.
 (* runtime info, water level part: [default mode; play mode] *)
 Record info := mkInfo { i_sz : Z * Z; i_bc : Z * Z; i_cs : Z * Z; i_cc : Z * Z }.
-Record st := mkSt { now : Z; bks : list bucket; limbo : list chunk; reqs : list req; nextc : Z; nextl : Z;
+Record st := mkSt { now : Z; bks : list bucket; limbo : list (Z * Z * chunk); reqs : list req; nextc : Z; nextl : Z;
   inf : info; minacc : Z; l_age : Z; l_max : Z; l_soft : Z; shut : bool; sig : bool;
   armed : option Z; stuck : bool }.
 
@@ -53,6 +53,7 @@ Fixpoint first_true (l : list bool) (i : Z) : option Z :=
 Fixpoint last_true (l : list bool) (i : Z) (acc : option Z) : option Z :=
   match l with [] => acc | b :: l' => last_true l' (i + 1) (if b then Some i else acc) end.
 Fixpoint zseq (a : Z) (n : nat) : list Z := match n with O => [] | S n' => a :: zseq (a + 1) n' end.
+Fixpoint sum_size (l : list chunk) : Z := match l with [] => 0 | c :: r => c_size c + sum_size r end.
 
 Section Cfg.
 Variables CS COL ROW : Z.     (* chunk size in slots; sizeof([]tsSelectRow); sizeofCache2Row of a stub row *)
@@ -80,7 +81,7 @@ Definition ch_touch (tnow : Z) (c : chunk) : chunk :=
   mkChunk (c_id c) (c_start c) (c_data c) (c_aw c) (c_inv c) (c_lsa c) tnow (c_size c) (c_loading c).
 Definition ch_inval (tnow : Z) (c : chunk) : chunk :=     (* cache2Chunk.invalidate *)
   mkChunk (c_id c) (c_start c) (c_data c) (c_aw c) tnow (c_lsa c) (c_lat c) (c_size c) (c_loading c).
-Definition ch_finish (ok : bool) (cd : list cell) (csize : Z) (c : chunk) : chunk :=   (* loadChunks, attached chunk *)
+Definition ch_finish (ok : bool) (cd : list (option cell)) (csize : Z) (c : chunk) : chunk :=   (* loadChunks, attached chunk *)
   if ok then mkChunk (c_id c) (c_start c) (Some cd) [] (if c_lsa c <? c_inv c then c_inv c else NEVER)
                      (c_lsa c) (c_lat c) csize (c_loading c - 1)
   else mkChunk (c_id c) (c_start c) (c_data c) [] (c_inv c) (c_lsa c) (c_lat c) (c_size c) (c_loading c - 1).
@@ -113,27 +114,39 @@ Definition dispositions (step tnow stale : Z) (force : bool) (cs : list chunk) :
          | _, _ => if w then DAwait else DCopy
          end) (combine (zseq 0 (length cs)) dw).
 
-Record iacc := mkIacc { ia_data : list (option cell); ia_wait : Z; ia_chunks : list chunk; ia_loads : list (Z * Z) }.
+(* init, pass 2: the decision is applied to the chunk of the bucket that starts at the gathered chunk's start
+   (the first such chunk; a new chunk is inserted in start order) *)
+Fixpoint repl_start (t : Z) (g : chunk -> chunk) (l : list chunk) : list chunk :=
+  match l with [] => [] | c :: r => if c_start c =? t then g c :: r else c :: repl_start t g r end.
+Fixpoint ins_sorted (c : chunk) (l : list chunk) : list chunk :=
+  match l with [] => [c] | x :: r => if c_start c <? c_start x then c :: l else x :: ins_sorted c r end.
+Definition upd_at (t : Z) (g : chunk -> chunk) (dflt : chunk) (l : list chunk) : list chunk * bool :=
+  if existsb (fun c => c_start c =? t) l then (repl_start t g l, false) else (ins_sorted (g dflt) l, true).
+
+Record iacc := mkIacc { ia_data : list (option cell); ia_wait : Z; ia_chunks : list chunk; ia_loads : list (Z * Z); ia_new : Z }.
+
+Definition disp_fun (rid tnow ls le pos : Z) (d : disp) : chunk -> chunk :=
+  match d with
+  | DLoad => ch_load tnow
+  | DAwait => ch_await tnow (mkAw rid (Z.max pos ls) (Z.min le (pos + CS)) (Z.max pos ls - pos))
+  | DCopy => ch_touch tnow
+  end.
 
 Definition apply_disp (rid tnow ls le : Z) (a : iacc) (x : Z * (chunk * disp)) : iacc :=
   let '(k, (c, d)) := x in
   let pos := k * CS in
   let lsv := Z.max pos ls in
   let lev := Z.min le (pos + CS) in
-  match d with
-  | DLoad => mkIacc (ia_data a) (ia_wait a)
-               (ia_chunks a ++ [ch_load tnow c])
-               (ia_loads a ++ [(c_id c, pos)])
-  | DAwait => mkIacc (ia_data a) (ia_wait a + 1)
-               (ia_chunks a ++ [ch_await tnow (mkAw rid lsv lev (lsv - pos)) c])
-               (ia_loads a)
-  | DCopy => mkIacc (match c_data c with
-                     | Some cd => write (ia_data a) (Z.to_nat lsv) (map Some (slice cd (lsv - pos) (lev - pos)))
-                     | None => ia_data a end)
-               (ia_wait a)
-               (ia_chunks a ++ [ch_touch tnow c])
-               (ia_loads a)
-  end.
+  let '(l', ins) := upd_at (c_start c) (disp_fun rid tnow ls le pos d) c (ia_chunks a) in
+  mkIacc (match d with
+          | DCopy => match c_data c with
+                     | Some cd => write (ia_data a) (Z.to_nat lsv) (slice cd (lsv - pos) (lev - pos))
+                     | None => ia_data a end
+          | _ => ia_data a end)
+         (match d with DAwait => ia_wait a + 1 | _ => ia_wait a end)
+         l'
+         (match d with DLoad => ia_loads a ++ [(c_id c, pos)] | _ => ia_loads a end)
+         (if ins then ia_new a + 1 else ia_new a).
 
 Fixpoint find_bucket (step key : Z) (l : list bucket) : option bucket :=
   match l with [] => None | b :: l' => if (b_step b =? step) && (b_key b =? key) then Some b else find_bucket step key l' end.
@@ -149,7 +162,7 @@ Definition signal_if (s : st) : st :=
     mkSt (now s) (bks s) (limbo s) (reqs s) (nextc s) (nextl s) (inf s) (minacc s) (l_age s) (l_max s) (l_soft s) (shut s) true (armed s) (stuck s)
   else s.
 
-Definition set_core (s : st) (b : list bucket) (lb : list chunk) (r : list req) (nc nl : Z) (i : info) (m : Z) : st :=
+Definition set_core (s : st) (b : list bucket) (lb : list (Z * Z * chunk)) (r : list req) (nc nl : Z) (i : info) (m : Z) : st :=
   mkSt (now s) b lb r nc nl i m (l_age s) (l_max s) (l_soft s) (shut s) (sig s) (armed s) (stuck s).
 
 (* events: requests that returned in this step: (id, failed, cells of the requested range) *)
@@ -174,15 +187,12 @@ Definition do_get (s : st) (rid step key from to play : Z) (force : bool) : st *
                              mkInfo (i_sz (inf s)) (addm (i_bc (inf s)) md 1) (i_cs (inf s)) (i_cc (inf s)))
                   end in
   let '(g, nc) := gather (Z.to_nat count) first step (b_chunks b) (nextc s) in
-  let nnew := zlen (filter snd g) in
   let cs := map fst g in
   let ds := dispositions step (now s) stale force cs in
   let a := fold_left (apply_disp rid (now s) ls le) (combine (zseq 0 (length cs)) (combine cs ds))
-                     (mkIacc (repeat None (Z.to_nat n)) 0 [] []) in
-  let lastEnd := first + count * d in
-  let chunks' := filter (fun c => c_start c <? first) (b_chunks b) ++ ia_chunks a ++ filter (fun c => lastEnd <=? c_start c) (b_chunks b) in
-  let b' := mkBucket step key chunks' (now s) play in
-  let i2 := mkInfo (i_sz i1) (i_bc i1) (addm (i_cs i1) md (nnew * CS)) (addm (i_cc i1) md nnew) in
+                     (mkIacc (repeat None (Z.to_nat n)) 0 (b_chunks b) [] 0) in
+  let b' := mkBucket step key (ia_chunks a) (now s) play in
+  let i2 := mkInfo (i_sz i1) (i_bc i1) (addm (i_cs i1) md (ia_new a * CS)) (addm (i_cc i1) md (ia_new a)) in
   let hasload := negb (match ia_loads a with [] => true | _ => false end) in
   let r := mkReq rid step key first (ia_data a) ls le (ia_wait a + (if hasload then 1 else 0)) false md
                  (if hasload then nextl s else 0) (ia_loads a) in
@@ -206,9 +216,27 @@ Definition deliver (ok : bool) (cd : list (option cell)) (rs : list req) (a : aw
 
 Fixpoint take_by_id (id : Z) (l : list chunk) : option chunk :=
   match l with [] => None | c :: l' => if c_id c =? id then Some c else take_by_id id l' end.
-Definition repl_by_id (nc : chunk) (l : list chunk) : list chunk :=
-  map (fun c => if c_id c =? c_id nc then nc else c) l.
-Definition strip (oc : option cell) : cell := match oc with Some c => c | None => mkCell 0 0 0 0 end.
+Fixpoint repl_first (id : Z) (nc : chunk) (l : list chunk) : list chunk :=
+  match l with [] => [] | c :: l' => if c_id c =? id then nc :: l' else c :: repl_first id nc l' end.
+(* detached chunks still referenced by loaders, remembered with the bucket they came from *)
+Fixpoint take_limbo (sp k id : Z) (l : list (Z * Z * chunk)) : option chunk :=
+  match l with
+  | [] => None
+  | (sp', k', c) :: l' => if (sp' =? sp) && (k' =? k) && (c_id c =? id) then Some c else take_limbo sp k id l'
+  end.
+Fixpoint repl_limbo (sp k id : Z) (nc : chunk) (l : list (Z * Z * chunk)) : list (Z * Z * chunk) :=
+  match l with
+  | [] => []
+  | (sp', k', c) :: l' => if (sp' =? sp) && (k' =? k) && (c_id c =? id) then (sp', k', nc) :: l' else (sp', k', c) :: repl_limbo sp k id nc l'
+  end.
+
+Definition post_limbo (ok : bool) (r : req) (cd : list (option cell)) (x : st) (id : Z) : st :=
+  match take_limbo (r_step r) (r_key r) id (limbo x) with
+  | Some c => set_core x (bks x)
+                       (repl_limbo (r_step r) (r_key r) id (mkChunk id (c_start c) None [] (c_inv c) (c_lsa c) (c_lat c) 0 (c_loading c)) (limbo x))
+                       (fold_left (deliver ok cd) (c_aw c) (reqs x)) (nextc x) (nextl x) (inf x) (minacc x)
+  | None => x
+  end.
 
 (* loadChunks after the storage call returned: post-load of one chunk *)
 Definition post_chunk (ok : bool) (r : req) (n : Z) (x : st) (v : Z * Z) : st :=
@@ -221,24 +249,14 @@ Definition post_chunk (ok : bool) (r : req) (n : Z) (x : st) (v : Z * Z) : st :=
   | Some b =>
     match take_by_id id (b_chunks b) with
     | Some c =>
-      let c' := ch_finish ok (map strip cd) csize c in
+      let c' := ch_finish ok cd csize c in
       let i := inf x in
       let i' := if ok then mkInfo (addm (i_sz i) (r_mode r) (csize - c_size c)) (i_bc i) (i_cs i) (i_cc i) else i in
-      set_core x (put_bucket (mkBucket (b_step b) (b_key b) (repl_by_id c' (b_chunks b)) (b_lat b) (b_play b)) (bks x))
+      set_core x (put_bucket (mkBucket (b_step b) (b_key b) (repl_first id c' (b_chunks b)) (b_lat b) (b_play b)) (bks x))
                (limbo x) (fold_left (deliver ok cd) (c_aw c) (reqs x)) (nextc x) (nextl x) i' (minacc x)
-    | None =>
-      match take_by_id id (limbo x) with
-      | Some c => set_core x (bks x) (repl_by_id (mkChunk id (c_start c) None [] (c_inv c) (c_lsa c) (c_lat c) 0 (c_loading c)) (limbo x))
-                           (fold_left (deliver ok cd) (c_aw c) (reqs x)) (nextc x) (nextl x) (inf x) (minacc x)
-      | None => x
-      end
+    | None => post_limbo ok r cd x id
     end
-  | None =>
-    match take_by_id id (limbo x) with
-    | Some c => set_core x (bks x) (repl_by_id (mkChunk id (c_start c) None [] (c_inv c) (c_lsa c) (c_lat c) 0 (c_loading c)) (limbo x))
-                         (fold_left (deliver ok cd) (c_aw c) (reqs x)) (nextc x) (nextl x) (inf x) (minacc x)
-    | None => x
-    end
+  | None => post_limbo ok r cd x id
   end.
 
 Definition do_loaddone (s : st) (l : Z) (ok : bool) : st * list event :=
@@ -303,31 +321,46 @@ Definition remove_chunks (b : bucket) (t : Z) (i : info) (mn : Z) : list chunk *
                 fold_left (fun a c => Z.min a (c_lat c)) (filter (fun c => negb (c_lat c <? t)) (b_chunks b)) mn)
     else rc_go (S (length (b_chunks b))) t (b_chunks b) mn in
   let n := zlen gone in
-  let i' := mkInfo (addm (i_sz i) md (- fold_left (fun a c => a + c_size c) gone 0)) (i_bc i)
+  let i' := mkInfo (addm (i_sz i) md (- sum_size gone)) (i_bc i)
                    (addm (i_cs i) md (- (n * CS))) (addm (i_cc i) md (- n)) in
   (kept, filter busy gone, i', mn').
 
-Definition remove_bucket (s : st) (b : bucket) : st :=
-  let '(_, det, i, _) := remove_chunks b (2 ^ 63) (inf s) 0 in
-  let i' := mkInfo (i_sz i) (addm (i_bc i) (mode (b_play b)) (-1)) (i_cs i) (i_cc i) in
-  set_core s (filter (fun x => negb ((b_step x =? b_step b) && (b_key x =? b_key b))) (bks s))
-           (limbo s ++ det) (reqs s) (nextc s) (nextl s) i' (minacc s).
+Fixpoint drop_bucket (step key : Z) (l : list bucket) : list bucket :=
+  match l with [] => [] | b :: l' => if (b_step b =? step) && (b_key b =? key) then l' else b :: drop_bucket step key l' end.
+Definition remove_bucket (s : st) (step key : Z) : st :=
+  match find_bucket step key (bks s) with
+  | None => s
+  | Some b =>
+    (* removeChunksNotUsedAfterUnlocked(math.MaxInt64): every chunk goes (the code panics otherwise) *)
+    let md := mode (b_play b) in
+    let n := zlen (b_chunks b) in
+    let det := filter busy (b_chunks b) in
+    let i := inf s in
+    let i' := mkInfo (addm (i_sz i) md (- sum_size (b_chunks b))) (addm (i_bc i) md (-1))
+                     (addm (i_cs i) md (- (n * CS))) (addm (i_cc i) md (- n)) in
+    set_core s (drop_bucket step key (bks s)) (limbo s ++ map (fun c => (step, key, c)) det) (reqs s) (nextc s) (nextl s) i' (minacc s)
+  end.
 
 Definition do_reset (s : st) : st :=
   match bks s with
   | [] => s
-  | _ => let s1 := fold_left remove_bucket (bks s) s in
+  | _ => let s1 := fold_left (fun x b => remove_bucket x (b_step b) (b_key b)) (bks s) s in
          signal_if (set_core s1 (bks s1) (limbo s1) (reqs s1) (nextc s1) (nextl s1) (inf s1) (Z.max (minacc s1) (now s1)))
   end.
 
 (* trimAged *)
 Definition steps_of (l : list bucket) : list Z := nodup Z.eq_dec (map b_step l).
-Definition trim_aged_bucket (dob tnow : Z) (x : st * list (Z * Z)) (b : bucket) : st * list (Z * Z) :=
+Definition trim_aged_bucket (dob tnow : Z) (x : st * list (Z * Z)) (b0 : bucket) : st * list (Z * Z) :=
   let '(s, mins) := x in
-  if b_lat b <=? dob then (remove_bucket s b, (b_step b, tnow) :: mins)
-  else let '(kept, det, i, mn) := remove_chunks b dob (inf s) tnow in
-       (set_core s (put_bucket (mkBucket (b_step b) (b_key b) kept (b_lat b) (b_play b)) (bks s)) (limbo s ++ det) (reqs s)
-                 (nextc s) (nextl s) i (minacc s), (b_step b, mn) :: mins).
+  match find_bucket (b_step b0) (b_key b0) (bks s) with
+  | None => (s, mins)
+  | Some b =>
+    if b_lat b <=? dob then (remove_bucket s (b_step b) (b_key b), (b_step b, tnow) :: mins)
+    else let '(kept, det, i, mn) := remove_chunks b dob (inf s) tnow in
+         (set_core s (put_bucket (mkBucket (b_step b) (b_key b) kept (b_lat b) (b_play b)) (bks s))
+                   (limbo s ++ map (fun c => (b_step b, b_key b, c)) det) (reqs s)
+                   (nextc s) (nextl s) i (minacc s), (b_step b, mn) :: mins)
+  end.
 Definition trim_aged (s : st) (age : Z) : st :=
   let '(s1, mins) := fold_left (trim_aged_bucket (now s - age) (now s)) (bks s) (s, []) in
   let per_step := map (fun st_ => fold_left (fun a p => if fst p =? st_ then Z.min a (snd p) else a) mins (now s)) (steps_of (bks s)) in
@@ -335,7 +368,7 @@ Definition trim_aged (s : st) (age : Z) : st :=
   set_core s1 (bks s1) (limbo s1) (reqs s1) (nextc s1) (nextl s1) (inf s1) m.
 
 (* reduceMemoryUsage: buckets leave in heap order (larger play period, then longer idle, then larger) *)
-Definition bsize (b : bucket) : Z := fold_left (fun a c => a + c_size c) (b_chunks b) 0.
+Definition bsize (b : bucket) : Z := sum_size (b_chunks b).
 Definition bplay (tnow : Z) (b : bucket) : Z :=
   let idle := tnow - b_lat b in
   if (b_play b <=? 0) || (b_play b * SEC + 5 * SEC <? idle) then MAXI else b_play b * SEC.
@@ -351,7 +384,7 @@ Fixpoint reduce (fuel : nat) (s : st) : st :=
   | O => s
   | S f => match bks s with
            | [] => s
-           | b0 :: l => let s1 := remove_bucket s (pick (now s) b0 l) in
+           | b0 :: l => let p := pick (now s) b0 l in let s1 := remove_bucket s (b_step p) (b_key p) in
                         if isize (inf s1) <=? l_soft s1 then s1 else reduce f s1
            end
   end.
@@ -423,7 +456,7 @@ Definition fp_aw (acc : Z) (a : awaiter) : Z := mixl acc [a_ls a; a_le a; a_off 
 Definition fp_chunk (acc : Z) (c : chunk) : Z :=
   let a1 := mixl acc [c_start c; c_loading c; c_inv c; c_lsa c; c_lat c; c_size c; zlen (c_aw c)] in
   let a2 := fold_left fp_aw (c_aw c) a1 in
-  match c_data c with None => mix a2 0 | Some cd => mixl (mix a2 1) (map ce_l cd) end.
+  match c_data c with None => mix a2 0 | Some cd => mixl (mix a2 1) (map (fun oc => match oc with Some x => ce_l x | None => -1 end) cd) end.
 Definition fp_bucket (acc : Z) (b : bucket) : Z :=
   fold_left fp_chunk (b_chunks b) (mixl acc [b_step b; b_key b; b_lat b; b_play b; zlen (b_chunks b)]).
 Fixpoint insert_b (b : bucket) (l : list bucket) : list bucket :=
